@@ -2796,3 +2796,134 @@ func deferredResult(v ssa.Value, ret ssa.Instruction) []ssa.Value {
 	}
 	return nil
 }
+
+// ---------------------------------------------------------------------------
+// R14.13: the block compressors never observe what the destination held before
+// the call. Every load from the destination buffer reads a byte that the same
+// call has stored at the same index before, on every path (the token byte is
+// written, then or-ed with the literal length); the destination is never the
+// source of a copy or of a word read.
+
+func ruleDestinationWriteOnly(c *Check, p *Program, rule string) {
+	nRMW := 0
+	for _, name := range []string{"Compressor.CompressBlock", "CompressorHC.CompressBlock"} {
+		fn := findFn(c, p, rule, "internal/lz4block", name)
+		if fn == nil {
+			continue
+		}
+		for _, g := range splitFns(fn) {
+			// the destination: a byte-slice parameter the function stores into
+			rootOf := func(v ssa.Value) ssa.Value {
+				for i := 0; i < 8; i++ {
+					switch x := v.(type) {
+					case *ssa.Slice:
+						v = x.X
+						continue
+					case *ssa.Phi:
+						// a re-sliced parameter carried around a loop
+						var r ssa.Value
+						same := true
+						for _, e := range x.Edges {
+							if e == ssa.Value(x) {
+								continue
+							}
+							if r == nil {
+								r = e
+							} else if r != e {
+								same = false
+							}
+						}
+						if same && r != nil {
+							v = r
+							continue
+						}
+					}
+					break
+				}
+				return v
+			}
+			dsts := map[ssa.Value]bool{}
+			allInstrs(g, func(in ssa.Instruction) {
+				if st, ok := in.(*ssa.Store); ok {
+					if ia, isIA := st.Addr.(*ssa.IndexAddr); isIA {
+						if pr, isP := rootOf(ia.X).(*ssa.Parameter); isP && isSliceType(pr.Type()) {
+							dsts[pr] = true
+						}
+					}
+				}
+			})
+			if len(dsts) == 0 {
+				continue
+			}
+			isDst := func(v ssa.Value) bool { return dsts[rootOf(v)] }
+			allInstrs(g, func(in ssa.Instruction) {
+				switch x := in.(type) {
+				case *ssa.UnOp:
+					if x.Op != token.MUL {
+						return
+					}
+					ia, isIA := x.X.(*ssa.IndexAddr)
+					if !isIA || !isDst(ia.X) {
+						return
+					}
+					nRMW++
+					c.Sites++
+					idx := ia.Index
+					// forward exploration with one bit: "this call has stored at this index"
+					stored := func(j ssa.Instruction) bool {
+						st, ok := j.(*ssa.Store)
+						if !ok {
+							return false
+						}
+						ja, isJ := st.Addr.(*ssa.IndexAddr)
+						return isJ && isDst(ja.X) && ja.Index == idx
+					}
+					type state struct {
+						b    *ssa.BasicBlock
+						have bool
+					}
+					seen := map[state]bool{}
+					bad := false
+					var walk func(b *ssa.BasicBlock, have bool)
+					walk = func(b *ssa.BasicBlock, have bool) {
+						if seen[state{b, have}] || bad {
+							return
+						}
+						seen[state{b, have}] = true
+						for _, j := range b.Instrs {
+							if v, isV := j.(ssa.Value); isV && v == idx {
+								have = false // a new value of the index: nothing stored there yet
+							}
+							if stored(j) {
+								have = true
+							}
+							if j == ssa.Instruction(x) && !have {
+								bad = true
+								return
+							}
+						}
+						for _, s := range b.Succs {
+							walk(s, have)
+						}
+					}
+					walk(g.Blocks[0], false)
+					c.Cond(!bad, rule, fmt.Sprintf("%s#reads-only-own-bytes#%d", shortFn(g), nRMW), p.InstrPos(in), "a byte of the destination is read only after this call has stored at the same index on every path (the output never depends on what the buffer held before)", "a store to dst[same index] precedes the load on all paths", "the load of dst["+shortVal(idx)+"] is reachable without a store to that index in this call: the emitted byte depends on the previous contents of the destination (a reused or pooled buffer gives different output for the same input)")
+				case ssa.CallInstruction:
+					if cc, ok := isBuiltinCall(in, "copy"); ok && len(cc.Args) == 2 && isDst(cc.Args[1]) {
+						c.Fail(rule, shortFn(g)+"#destination-copied-from", p.InstrPos(in), "the destination is never the source of a copy", "copy reads from the destination buffer")
+					}
+					if f := staticCallee(x); f != nil && f.Pkg != nil && f.Pkg.Pkg.Path() == "encoding/binary" && strings.HasPrefix(f.Name(), "Uint") {
+						for _, a := range x.Common().Args {
+							if isDst(a) {
+								c.Fail(rule, shortFn(g)+"#destination-word-read", p.InstrPos(in), "no word is read back from the destination", "binary."+f.Name()+" reads the destination buffer")
+							}
+						}
+					}
+				}
+			})
+		}
+	}
+	if nRMW < 2 {
+		c.Fail(rule, "compressors#destination-loads", "", "the read-modify-write sites of the token byte are resolved", fmt.Sprintf("only %d loads from a destination buffer found in the two compressors", nRMW))
+	}
+}
